@@ -177,13 +177,24 @@ impl Gen {
                                 for v in self.variants(ft) {
                                     let mut nf = f.clone();
                                     nf["type"] = v.reader;
-                                    // a field default must keep conforming; drop it when the type changes
+                                    // a field default must keep conforming; drop it when the type changes.
+                                    // Dropping a default is only safe when the writer has the field, which a
+                                    // later step cannot know: such a step is not claimed always-safe.
+                                    // Both readers are produced: with the default kept (a reader whose default
+                                    // no longer conforms is not well formed and is skipped by the checks) and
+                                    // with it dropped.
+                                    let mut had_default = false;
+                                    if nf.get("default").is_some() {
+                                        let mut fs = fields.clone();
+                                        fs[i] = nf.clone();
+                                        out.push(Step { name: v.name, safe: v.safe, reader: with_fields(fs) });
+                                    }
                                     if let Some(m) = nf.as_object_mut() {
-                                        m.remove("default");
+                                        had_default = m.remove("default").is_some();
                                     }
                                     let mut fs = fields.clone();
                                     fs[i] = nf;
-                                    out.push(Step { name: v.name, safe: v.safe, reader: with_fields(fs) });
+                                    out.push(Step { name: v.name, safe: v.safe && !had_default, reader: with_fields(fs) });
                                 }
                             }
                             // remove
@@ -222,6 +233,8 @@ impl Gen {
                             ("add-field-default-null", json!({"name":"zn","type":"null","default":null})),
                             ("add-field-default-nullable", json!({"name":"zo","type":["null","string"],"default":null})),
                             ("add-field-default-union-first-nonnull", json!({"name":"zu","type":["int","null"],"default":3})),
+                            ("add-field-default-union-second-branch", json!({"name":"zv","type":["null","int"],"default":5})),
+                            ("add-field-default-union-later-branch", json!({"name":"zw","type":["string","boolean","int"],"default":123})),
                             ("add-field-default-array", json!({"name":"za","type":{"type":"array","items":"long"},"default":[1,2]})),
                             ("add-field-default-empty-map", json!({"name":"zm","type":{"type":"map","values":"string"},"default":{}})),
                             ("add-field-default-map", json!({"name":"zm","type":{"type":"map","values":"string"},"default":{"k":"v"}})),
